@@ -36,6 +36,11 @@ def SeqOf(kind):
     return T("Seq", (kind,))
 
 
+def ArrOf(kind):
+    """Immutable list/tuple parameter that is only indexed, sliced, measured and iterated (see values.VArr)."""
+    return T("Arr", (kind,))
+
+
 def Rec(cls):
     return T("Rec", (cls,))
 
